@@ -1,0 +1,14 @@
+//go:build verif
+
+package kv
+
+import "github.com/lindb/lindb/kv/table"
+
+// VerifCacheBusy reports whether the mutex of the store's table reader cache is held at this moment
+// (add-only seam for the external verification harness, build tag "verif").
+func VerifCacheBusy(s Store) bool {
+	if ss, ok := s.(*store); ok {
+		return table.VerifCacheBusy(ss.cache)
+	}
+	return false
+}
